@@ -167,8 +167,11 @@ where
     /// The cancellation still goes through the state machine (`-> Running -> Cancelled`),
     /// because listeners account for coroutines through it.
     pub(crate) fn cancel_unresumed(&self) -> std::io::Result<()> {
-        if let CoroutineState::Syscall(val, syscall, SyscallState::Callback | SyscallState::Timeout) =
-            self.state()
+        if let CoroutineState::Syscall(
+            val,
+            syscall,
+            SyscallState::Callback | SyscallState::Timeout,
+        ) = self.state()
         {
             self.syscall(val, syscall, SyscallState::Executing)?;
         }
